@@ -21,11 +21,11 @@ func init() { register(c06{}) }
 
 func (c06) ID() string { return "C06" }
 func (c06) Rule() string {
-	return "values: every location of gen.Universe(L<=6,arity<=3) and seeded locations built with the public constructors (Join/Order/.Complement/PartialRange; depth<=3, 1..5 parts, incl. abutting, duplicate, overlapping and single-base parts): AsLocation(v.String()) must succeed, print identically and have equal atoms (residues, sites, strand, ambiguity) and open-end markers. strings: printed values, the legacy trailing '>' spelling, 1-3 character mutations of printed values, and random strings over the location alphabet: for every accepted string print(parse(s)) must be a fixed point of parse-then-print. text: expressions assembled by the harness over pairwise separated leaves (points, between-sites, partial ranges, ambiguous spans; join/order/complement nested up to depth 3, members in any order): AsLocation(text) must denote exactly what the expression says (the model reads it off a literal value no library constructor touched): same residues, sites, strands, order, open-end markers, join vs order; and its print must read back to the same. reduction: for raw part lists P (abutting, duplicate, single-base, zero-length, complemented members) Join(P...) and Order(P...) must denote the same set of residues in the same order of first occurrence, on the same strands, as the concatenation of the members. non-trivial: a list location, a partial end, or a string that is not a printed value; distinct: canonical case text. Every harness-written location text is also read from the location column of a GenBank record: on one line / continued behind each comma, LF / CRLF, the record delivered whole / byte by byte / with a 4096-byte read boundary at every offset of the text; each spelling must denote what the text denotes."
+	return "values: every location of gen.Universe(L<=6,arity<=3) and seeded locations built with the public constructors (Join/Order/.Complement/PartialRange; depth<=3, 1..5 parts, incl. abutting, duplicate, overlapping and single-base parts): AsLocation(v.String()) must succeed, print identically and have equal atoms (residues, sites, strand, ambiguity) and open-end markers. strings: printed values, the legacy trailing '>' spelling, 1-3 character mutations of printed values, and random strings over the location alphabet: for every accepted string print(parse(s)) must be a fixed point of parse-then-print. text: expressions assembled by the harness over pairwise separated leaves (points, between-sites, partial ranges, ambiguous spans; join/order/complement nested up to depth 3, members in any order): AsLocation(text) must denote exactly what the expression says (the model reads it off a literal value no library constructor touched): same residues, sites, strands, order, open-end markers, join vs order; and its print must read back to the same. reduction: for raw part lists P (abutting, duplicate, single-base, zero-length, complemented members) Join(P...) and Order(P...) must denote the same set of residues in the same order of first occurrence, on the same strands, as the concatenation of the members. non-trivial: a list location, a partial end, or a string that is not a printed value; distinct: canonical case text. Every harness-written location text is also read from the location column of a GenBank record: on one line / continued behind each comma, LF / CRLF, the record delivered whole / byte by byte / with a 4096-byte read boundary at every offset of the text; each spelling must denote what the text denotes. The text stands in the first or in a later feature of the table."
 }
 func (c06) RequiredBuckets(tier string) []string {
 	out := []string{"value:roundtrip", "string:accepted", "string:rejected", "string:legacy-gt", "string:mutated", "string:random", "reduce:join", "reduce:order",
-		"reduce:abutting", "reduce:duplicate", "reduce:site-absorbed", "reduce:complemented-members", "depth:3", "text:denotation", "text:depth>=3"}
+		"reduce:abutting", "reduce:duplicate", "reduce:site-absorbed", "reduce:complemented-members", "depth:3", "text:denotation", "text:depth>=3", "text:table-column:in-a-later-feature"}
 	for _, a := range []string{"one-line", "continued"} {
 		for _, b := range []string{"lf", "crlf"} {
 			for _, d := range []string{"whole", "byte-by-byte", "block-boundary-inside"} {
@@ -677,7 +677,8 @@ func (m c06) checkText(c *fw.Ctx, n *c06Node) {
 		if cont {
 			loctext = strings.ReplaceAll(s, ",", ",\n                     ")
 		}
-		doc := c06Record(loctext, hi)
+		later := (c06Tick/84)%2 == 1
+		doc := c06Record(loctext, hi, later)
 		if rd == 2 {
 			// the read boundary of a block reader falls inside the text.
 			at := strings.Index(doc, loctext)
@@ -710,8 +711,13 @@ func (m c06) checkText(c *fw.Ctx, n *c06Node) {
 			c.Violate("text:"+name+":not-read", enc, "a record with the feature and the one listed behind it", fmt.Sprintf("error %v, %d feature(s)", serr, len(tab)))
 			return
 		}
-		if ok, why := sameDenotation(exp, model.Parts(tab[0].Loc), false); !ok {
-			c.Violate("text:"+name+":denotes-other-"+why, enc, model.PartsString(exp), model.SafeString(tab[0].Loc))
+		mine := tab[0]
+		if later {
+			mine = tab[1]
+			c.Bucket("text:table-column:in-a-later-feature")
+		}
+		if ok, why := sameDenotation(exp, model.Parts(mine.Loc), false); !ok {
+			c.Violate("text:"+name+":denotes-other-"+why, enc, model.PartsString(exp), model.SafeString(mine.Loc))
 			return
 		}
 	}
@@ -721,10 +727,14 @@ var c06Tick int
 
 // c06Record is a GenBank record whose first feature has the given text in its
 // location column; a second feature follows it.
-func c06Record(loctext string, hi int) string {
+func c06Record(loctext string, hi int, later bool) string {
 	var b strings.Builder
 	fmt.Fprintf(&b, "LOCUS       C06 %18d bp    DNA     linear   UNA 01-JAN-2020\nDEFINITION  d\nCOMMENT     x\nFEATURES             Location/Qualifiers\n", hi)
-	fmt.Fprintf(&b, "     misc_feature    %s\n                     /label=\"f0\"\n     gene            1\n                     /label=\"f1\"\nORIGIN      \n", loctext)
+	if later {
+		fmt.Fprintf(&b, "     gene            1\n                     /label=\"f1\"\n     misc_feature    %s\n                     /label=\"f0\"\nORIGIN      \n", loctext)
+	} else {
+		fmt.Fprintf(&b, "     misc_feature    %s\n                     /label=\"f0\"\n     gene            1\n                     /label=\"f1\"\nORIGIN      \n", loctext)
+	}
 	for i := 0; i < hi; i += 60 {
 		fmt.Fprintf(&b, "%9d", i+1)
 		for j := i; j < i+60 && j < hi; j += 10 {
